@@ -12,7 +12,7 @@ ALLOWED_AXIOMS = {
     "FunctionalExtensionality.functional_extensionality_dep",
 }
 MANIFEST = {
-    "text": "Coq theorem: Entry::validate / validate_actuator_value (as modelled arm by arm) accept a value other than NotAvailable iff it lies in a declaratively defined domain (carrier kind of the data type, 8/16-bit range element-wise, min/max, allowed list), and that domain is given its meaning in the exact order of the numbers via the C13 theorems. Tied to the code by a complete grid (24 data types x 17 value kinds x boundary pool x min/max/allowed shapes) executed against the real Entry methods, with an independent exact-rational domain monitor on the implementation's verdicts. The write paths that call the validator are exercised by the history checks (C01, C09).",
+    "text": "Coq theorem: Entry::validate / validate_actuator_value (as modelled arm by arm) accept a value other than NotAvailable iff it lies in a declaratively defined domain (carrier kind of the data type, 8/16-bit range element-wise, min/max, allowed list), and that domain is given its meaning in the exact order of the numbers via the C13 theorems. Tied to the code by a complete grid (24 data types x 17 value kinds x boundary pool x min/max/allowed shapes) executed against the real Entry methods, with an independent exact-rational domain monitor on the implementation's verdicts. The write paths that call the validator are exercised by the history checks (C01, C09). History invariant (Proofs/Store.v, StoreDomain.v): in every state reachable by any finite history, the current value, the previous value (LAG) and the target of every signal are NotAvailable or lie in the declared domain (c02_store_inv), hence so is whatever a reader is handed (c02_read_in_domain) and whatever a provider receives has passed the actuator validation (c02_forwarded_validated). Third part: values written as text over the VISS websocket (the VISS family judged by the C02 clauses).",
     "note": "Trusted: Coq kernel, Flocq and the 4 standard-library axioms it brings; extraction + OCaml driver (cross-checked by vm_compute each run); harness/src/fam_validate.rs; the Python monitor. Modelled, not verified: the Rust match arms themselves (covered by the exhaustive-cell correspondence).",
     "technique": "machine-checked proof in Coq + exhaustive-grid differential correspondence",
 }
